@@ -77,7 +77,10 @@ def gen_case(rng, uniform=True, small=True):
                 z = complex(10 ** rng.uniform(-1, 3.5), 0)
             else:
                 z = complex(rng.choice([0, 10 ** rng.uniform(-1, 2)]), rng.choice([1, -1]) * 10 ** rng.uniform(0, 3.3))
-            loads.append(('imp', [z.real, z.imag], sorted(rng.sample(range(N), rng.randint(1, min(N, 4))))))
+            pl = sorted(rng.sample(range(N), rng.randint(1, min(N, 4))))
+            if rng.random() < 0.3:
+                pl.append(rng.choice(pl))        # the same load twice on one pulse: two such loads in series
+            loads.append(('imp', [z.real, z.imag], pl))
     if mode in ('skin', 'mixed'):
         loads.append(('skin', 10 ** rng.uniform(5, 8), None))
     if mode == 'coat':
